@@ -809,11 +809,7 @@ fn main() {
 
     // Vacuity: every branch of the decision must have been taken.
     let count = |prefix: &str| st.outcomes.iter().filter(|(k, _)| k.starts_with(prefix)).map(|(_, v)| *v).sum::<u64>();
-    for must in ["ok|S-has-max", "no-candidates|S-empty", "diverging|S-divergent", "e2e:ok|S-has-max"] {
-        if count(must) == 0 {
-            machinery(&format!("C03: vacuity alarm: outcome {must} never observed"));
-        }
-    }
+    let vacuous: Vec<&str> = ["ok|S-has-max", "no-candidates|S-empty", "diverging|S-divergent", "e2e:ok|S-has-max"].into_iter().filter(|must| count(must) == 0).collect();
 
     let sample = |i: u64| {
         let b = env.offsets.partition_point(|o| *o <= i) - 1;
@@ -852,6 +848,11 @@ fn main() {
     WORKER.with(|w| w.borrow_mut().take());
     drop(env);
     drop(root);
+    // A missing branch is a machinery alarm only when nothing was found (a defect may itself be
+    // the reason a branch is never taken; then the violations are the verdict).
+    if violations.is_empty() && !vacuous.is_empty() {
+        machinery(&format!("C03: vacuity alarm: outcome(s) {vacuous:?} never observed"));
+    }
     ctx.finish(
         cov,
         &[
